@@ -4,11 +4,12 @@ limitations that are not defects of the exporter:
 
   * `ort_opset_unsupported`  – the installed ORT refuses EVERY model stamped with that opset
                                (probed with a one-node Identity model);
-  * `ort_kernel_missing`     – ORT answers NOT_IMPLEMENTED for an operator that the installed
-                               onnx.defs defines at the model's opset and for which a one-node probe
-                               model of the same operator/opset/element type is refused as well
-                               (e.g. ORT 1.30 registers Swish for opset 24 only), or the failure
-                               disappears with graph optimisations disabled (an ORT fusion bug).
+  * `ort_kernel_missing`     – ORT answers NOT_IMPLEMENTED (also with graph optimisations disabled) for
+                               an operator that the installed onnx.defs defines at the model's opset
+                               (e.g. ORT 1.30 registers Swish for opset 24 only: a one-node Swish model
+                               stamped opset 25 or 26 is refused);
+  * `ort_optimizer_bug`      – the failure disappears with graph optimisations disabled (an ORT fusion
+                               producing a node without kernel, e.g. QuickGelu for double).
 Everything else is returned as a failure for the caller to route through `chk.finding`.
 """
 from __future__ import annotations
